@@ -272,6 +272,51 @@ func (g *gen) mucTables() {
 		g.p("Definition muc_presence_lookup_before_decode : bool := false.\n")
 	}
 
+	// Channel.JoinPresence: the assignment `c.client.managed[...] = c` is a
+	// statement of the function body itself: no if/switch/for/select/closure
+	// encloses it (the channel is registered on every join, whatever its state)
+	cj := mucMethod(r, "Channel", "JoinPresence")
+	uncond := false
+	if cj == nil || cj.Body == nil || cj.Recv == nil || len(cj.Recv.List[0].Names) != 1 {
+		g.errs = append(g.errs, "muc/room.go: method Channel.JoinPresence not found")
+	} else {
+		recv := cj.Recv.List[0].Names[0].Name
+		isReg := func(st ast.Stmt) bool {
+			as, is := st.(*ast.AssignStmt)
+			if !is || len(as.Lhs) != 1 || len(as.Rhs) != 1 || as.Tok != token.ASSIGN {
+				return false
+			}
+			ix, is := as.Lhs[0].(*ast.IndexExpr)
+			if !is {
+				return false
+			}
+			sel, is := ix.X.(*ast.SelectorExpr)
+			if !is || sel.Sel.Name != "managed" {
+				return false
+			}
+			id, is := as.Rhs[0].(*ast.Ident)
+			return is && id.Name == recv
+		}
+		total, top := 0, 0
+		ast.Inspect(cj.Body, func(n ast.Node) bool {
+			if st, is := n.(ast.Stmt); is && isReg(st) {
+				total++
+			}
+			return true
+		})
+		for _, st := range cj.Body.List {
+			if isReg(st) {
+				top++
+			}
+		}
+		uncond = total == 1 && top == 1
+	}
+	if uncond {
+		g.p("Definition muc_join_registers_unconditionally : bool := true.\n")
+	} else {
+		g.p("Definition muc_join_registers_unconditionally : bool := false.\n")
+	}
+
 	// Channel.Joined: `return c.joined`
 	jd := mucMethod(r, "Channel", "Joined")
 	flag := "false"
